@@ -5,6 +5,13 @@ import ast
 
 import z3
 
+
+def _zsum(ts):
+    """z3.Sum, except that a one-element sum is the element itself: z3 prints (+ x) for it, which cvc5 1.0 rejects."""
+    ts = list(ts)
+    return ts[0] if len(ts) == 1 else z3.Sum(ts)
+
+
 from .ops import FALSE, TRUE, val_truthy
 from .values import (EMPTY, VAL, ListRec, ObjRec, PyRaise, SBool, SBuiltin, SCarried, SClass, SDict, SElem, SEnum,
                      SExternal, SFloat, SFunc, SInt, SList, SModel, SNone, SObj, SOpaque, SOpt, SSet, SStr, STuple, SVal,
@@ -489,6 +496,10 @@ def method(I, obj: V, name: str) -> V:
     else:
         fn = None
     if fn is None:
+        pytype = {SList: list, SSet: set, SDict: dict, SStr: str, STuple: tuple, SInt: int}.get(type(obj))
+        if pytype is not None and not hasattr(pytype, name):
+            # the Python type has no such attribute at all: AttributeError, exactly as at run time
+            I.raise_builtin("AttributeError", f"'{pytype.__name__}' object has no attribute '{name}'")
         raise Unsupported(f"method {name} on {type(obj).__name__}")
     return SModel(fn, obj, f"{type(obj).__name__}.{name}")
 
@@ -696,7 +707,7 @@ def t_index(I, a, k):
 
 
 def t_count(I, a, k):
-    return SInt(z3.Sum([z3.If(I.ops.eq(it, a[1]), 1, 0) for it in a[0].items]) if a[0].items else z3.IntVal(0))
+    return SInt(_zsum([z3.If(I.ops.eq(it, a[1]), 1, 0) for it in a[0].items]) if a[0].items else z3.IntVal(0))
 
 
 # ---- dict
@@ -1093,6 +1104,27 @@ def do_slice(I, obj, sl, env):
             g = fresh_int("g")
             n = I.ops.list_len(obj)
             return I.ops.new_derived([Seg(obj.lid, tuple(obj.idx), n, g, g >= 1, I.elem_value(obj.lid, tuple(obj.idx) + (g,)))])
+    if isinstance(obj, SVal) and sl.step is None:
+        # xs[lo:hi] of a dynamic value with constant non-negative bounds: a new list holding the elements lo .. min(hi, len) - 1
+        lo = I.concrete_int(I.eval(sl.lower, env)) if sl.lower else 0
+        hi = I.concrete_int(I.eval(sl.upper, env)) if sl.upper else None
+        if lo is not None and lo >= 0 and (hi is None or hi >= 0):
+            t = obj.t
+            if I.st.branch(z3.Not(VAL.is_VList(t))):
+                if I.st.branch(VAL.is_VStr(t)):
+                    return I.ops.opaque_str("slice")
+                I.raise_builtin("TypeError", "object is not subscriptable")
+            l = VAL.vl(t)
+            n = vlist_len(l)
+            I.st.assume(n >= 0)
+            start = z3.If(n < lo, n, z3.IntVal(lo))
+            stop = n if hi is None else z3.If(n < hi, n, z3.IntVal(hi))
+            res = vlist_slice(l, z3.IntVal(lo), z3.IntVal(-1 if hi is None else hi))
+            j = z3.Int(fresh_name("j"))
+            ln = z3.If(stop > start, stop - start, 0)
+            I.st.assume(vlist_len(res) == ln)
+            I.st.assume(z3.ForAll([j], z3.Implies(z3.And(j >= 0, j < ln), vlist_get(res, j) == vlist_get(l, j + lo))))
+            return SVal(VAL.VList(res))
     raise Unsupported("slice")
 
 
@@ -1152,6 +1184,7 @@ def v_get(I, a, k):
 
 
 vlist_tail = z3.Function("vlist_tail", z3.IntSort(), z3.IntSort())
+vlist_slice = z3.Function("vlist_slice", z3.IntSort(), z3.IntSort(), z3.IntSort(), z3.IntSort())
 
 
 def v_pop(I, a, k):
